@@ -2,6 +2,7 @@ import OmbottModel.Model.History
 import OmbottModel.Lemmas.History
 import OmbottModel.Lemmas.WsgiCast
 import OmbottModel.Lemmas.ReqObjEnv
+import OmbottModel.Lemmas.ReqObjRefine
 /-!
 C09 — Each response depends on its own request only; retained state is bounded.
 Property theorems only; helper lemmas live in `Lemmas/History.lean`.  All statements are about
@@ -450,6 +451,64 @@ theorem reqobj_copy (r c : Req) (t new : Nat) (cfg : Option (List (String × Str
       rw [hcfg, getFrom_idem]
     · rw [(reqobj_init_forgets _ t new (some env)).2.2.2 t' ht]; rfl
 
+/-- **refinement of the mapping protocol**: for EVERY sequence of `get` / `keys` / `__iter__` /
+`__len__` / `__getitem__` / `__setitem__` / `__delitem__` operations of a thread on a request object
+with the listeners of a fresh object and the read-only flag absent, the answers and the environ are
+those of the abstract machine `specRun`: an insertion-ordered finite map `Key → value` whose
+assignment (`specSet`) additionally removes exactly the cache keys `_on_env_changed` lists for the
+key — and nothing at all when the key already holds an equal value —, and whose deletion of a
+missing key does not raise.  Listeners and configuration are untouched.  (`MOp.safe`: the flag is
+not assigned — `reqobj_readonly_frozen` covers that regime — and a deleted key is not one of the
+cache keys its own assignment drops.) -/
+theorem reqobj_refines_map (ops : List MOp) (w : World) (t i : Nat) (r : Req) (env : REnv)
+    (hr : w.reqs[i]? = some r) (he : r.env t = some env)
+    (hl : r.listeners.get? evChanged = some [.builtin])
+    (hflag : env.get? kReadonly = none) (hs : ∀ op ∈ ops, op.safe = true) :
+    ∃ r', (run w (ops.map (MOp.toOp t i))).1.reqs[i]? = some r' ∧ r'.env t = some (specRun env ops).1 ∧
+      r'.listeners = r.listeners ∧ r'.config = r.config ∧
+      (run w (ops.map (MOp.toOp t i))).2 = (specRun env ops).2 :=
+  run_refines ops w t i r env hr he hl hflag hs
+
+theorem copyHeaders_prefix (h : List (Str × HRef)) : ∀ ls, ∃ x, (copyHeaders h ls).2 = ls ++ x := by
+  induction h with
+  | nil => intro ls; exact ⟨[], by simp [copyHeaders]⟩
+  | cons p r ih =>
+    intro ls
+    obtain ⟨k, v⟩ := p
+    cases v with
+    | one s => obtain ⟨x, hx⟩ := ih ls; exact ⟨x, by simp [copyHeaders, hx]⟩
+    | ref id =>
+      obtain ⟨x, hx⟩ := ih (ls ++ [ls.getD id []])
+      refine ⟨[ls.getD id []] ++ x, ?_⟩
+      simp only [copyHeaders, hx, List.append_assoc]
+
+/-- `_copy_error` only ALLOCATES: the raised object is a new one with the template's class, status
+code, status line and body; every existing object, header list and cookie jar — in particular the
+template's — is left exactly as it was, and the copy's list-valued headers and cookie jar are new
+objects (indices beyond the old heaps), so that appending to a header list or setting a cookie on
+the copy cannot reach the template. -/
+theorem reqobj_copy_error_allocates (w w' : EWorld) (i c : Nat) (h : copyError w i = .ok (w', c)) :
+    c = w.objs.length ∧ (∃ x, w'.lists = w.lists ++ x) ∧ (∃ y, w'.jars = w.jars ++ y) ∧
+    ∃ tpl o, w.objs[i]? = some tpl ∧ w'.objs = w.objs ++ [o] ∧ o.cls = tpl.cls ∧ o.code = tpl.code ∧
+      o.line = tpl.line ∧ o.body = tpl.body ∧ (∀ j, o.cookies = some j → w.jars.length ≤ j) := by
+  unfold copyError at h
+  cases ht : w.objs[i]? with
+  | none => rw [ht] at h; cases h
+  | some tpl =>
+    rw [ht] at h
+    obtain ⟨x, hx⟩ := copyHeaders_prefix tpl.headers w.lists
+    simp only at h
+    split at h
+    · simp only [Except.ok.injEq, Prod.mk.injEq] at h
+      obtain ⟨rfl, rfl⟩ := h
+      exact ⟨rfl, ⟨x, hx⟩, ⟨[], by simp⟩, tpl, _, rfl, rfl, rfl, rfl, rfl, rfl, by intro j hj; cases hj⟩
+    · split at h
+      · cases h
+      · simp only [Except.ok.injEq, Prod.mk.injEq] at h
+        obtain ⟨rfl, rfl⟩ := h
+        exact ⟨rfl, ⟨x, hx⟩, ⟨_, rfl⟩, tpl, _, rfl, rfl, rfl, rfl, rfl, rfl,
+          by intro j hj; simp only [Option.some.injEq] at hj; omega⟩
+
 section NonVacuityReqObj
 
 local instance : DecidableEq (Except Err Bool) := fun a b =>
@@ -511,6 +570,30 @@ one called in the same `emit` -/
 example : (run (World.init []) [.new 0 none none, .on 0 cs!"e" (.once cs!"e" 1), .on 0 cs!"e" (.recd 2),
     .on 0 cs!"e" (.adder cs!"e" 3 4), .emit 0 0 cs!"e" [], .emit 0 0 cs!"e" []]).1.log.map (·.n) =
     [1, 3, 4, 2, 3, 4, 4] := by decide +kernel
+
+
+/-- `reqobj_refines_map`: a safe operation sequence and what the abstract machine answers -/
+example : ∀ op ∈ [MOp.setItem cs!"QUERY_STRING" (.plain (.str cs!"b=2")), .delItem cs!"missing", .keys, .len,
+    .getItem cs!"nope"], op.safe = true := by decide +kernel
+example : (specRun [(kSelf, .req 0), (cs!"QUERY_STRING", .plain (.str cs!"a")), (cs!"ombott.request.query", .plain (.dict []))]
+    [.setItem cs!"QUERY_STRING" (.plain (.str cs!"b=2")), .delItem cs!"missing", .keys, .len, .getItem cs!"nope"]).2 =
+    [.unit, .unit, .keys [kSelf, cs!"QUERY_STRING"], .len 2, .err .keyError] := by decide +kernel
+
+/-- `_raise` with a mapped template carrying a list header and a cookie: the copy equals the template,
+and mutating the copy (header list, cookie, status, body) leaves the template as it was -/
+def exEW : EWorld :=
+  { objs := [{ cls := "HTTPError", code := 400, line := cs!"400 Bad Request", body := cs!"Bad",
+               headers := [(cs!"X-A", .ref 0), (cs!"Y", .one cs!"s")], cookies := some 0 }],
+    lists := [[cs!"1", cs!"2"]], jars := [[(cs!"sid", cs!"abc")]] }
+example : (match raiseR exEW [("RequestError", 0)] "BodySizeError" (some "RequestError") with
+    | .ok (w1, some 1) =>
+      decide (eview w1 1 = eview w1 0) &&
+      decide (eview (erun w1 [.hdrAppend 1 cs!"X-A" cs!"3", .cookieSet 1 cs!"sid" cs!"evil", .setStatus 1 500 cs!"500 X",
+        .setBody 1 cs!"x"]) 0 = eview exEW 0) &&
+      decide (eview (erun w1 [.hdrAppend 1 cs!"X-A" cs!"3"]) 1 ≠ eview w1 1)
+    | _ => false) = true := by decide +kernel
+/-- hypothesis of `reqobj_copy_error_allocates` -/
+example : (match copyError exEW 0 with | .ok _ => true | .error _ => false) = true := by decide +kernel
 
 end NonVacuityReqObj
 
